@@ -243,6 +243,11 @@ func (e *EvalEnv) Eval(fn *ssa.Function, args []AV, depth int) ([]AV, string) {
 								continue
 							}
 						}
+						if bt, ok := g.Type().Underlying().(*types.Pointer).Elem().Underlying().(*types.Basic); ok && bt.Info()&types.IsString != 0 {
+							// a package-level string variable: a symbolic marker that concatenates like a string
+							fr.vals[v] = avS("<" + g.Name() + ">")
+							continue
+						}
 						fr.vals[v] = AV{K: avOpaque, S: g.Name()}
 						continue
 					}
